@@ -17,6 +17,25 @@ def DefaultPrefixed (e : ProtoErr) : Bool := e.details.all (fun d => defaultPref
 def sameError (a b : ProtoErr) : Bool :=
   a.code == b.code && a.getMessage == b.getMessage && a.details == b.details
 
+/-- the type URL names the message type `n`: `n` is what follows the LAST slash, whatever stands
+in front of it, or the URL has no slash and is `n` -/
+def urlNames (url n : Str) : Bool := !n.contains '/' && (url == n || ('/' :: n).isSuffixOf url)
+
+/-- a detail after a passage through the Connect form: the bytes are the same and the type URL
+is the default prefix in front of the type the original URL names (any prefix, or none) -/
+def detailRestored (orig out : Detail) : Bool :=
+  out.value == orig.value && anyPrefix.isPrefixOf out.url && urlNames orig.url (out.url.drop anyPrefix.length)
+
+def detailsRestored : List Detail → List Detail → Bool
+  | [], [] => true
+  | a :: as, b :: bs => detailRestored a b && detailsRestored as bs
+  | _, _ => false
+
+/-- "preserves its code, message and every detail (type and bytes)" for details with ANY type
+URL prefix: the type a URL names and the bytes survive (the prefix is normalised) -/
+def sameErrorTypes (out orig : ProtoErr) : Bool :=
+  out.code == orig.code && out.getMessage == orig.getMessage && detailsRestored orig.details out.details
+
 /-- every value given under key `k` (names compared after normalisation), in order of
 appearance, each passed through `tr k` -/
 def valuesFor (norm : Str → Str) (tr : Str → Bytes → Bytes) (hs : List Header) (k : Str) : List Bytes :=
